@@ -1,0 +1,26 @@
+// Copyright Amazon.com, Inc. or its affiliates. All Rights Reserved.
+// SPDX-License-Identifier: Apache-2.0
+
+//! Verification hooks (compiled only with `--cfg metrique_verif`): named sync points inside the
+//! keep-alive and slot destructors, so that an external harness can pause a thread between two
+//! atomic actions and explore interleavings. Without an installed controller a sync point is a no-op.
+
+use std::sync::{Arc, RwLock};
+
+/// The controller: called with the name of the sync point the calling thread has reached.
+pub type Controller = dyn Fn(&'static str) + Send + Sync;
+
+static CONTROLLER: RwLock<Option<Arc<Controller>>> = RwLock::new(None);
+
+/// Install (or remove) the process-wide controller.
+pub fn install(controller: Option<Arc<Controller>>) {
+    *CONTROLLER.write().unwrap() = controller;
+}
+
+/// Called by the instrumented code right before the action the name describes.
+pub fn sync_point(name: &'static str) {
+    let controller = CONTROLLER.read().unwrap().clone();
+    if let Some(controller) = controller {
+        controller(name);
+    }
+}
